@@ -90,7 +90,7 @@ impl OutputFormat for TundraDraw {
                 let is_command_byte = (1..=6).contains(&ch);
 
                 let mut fg = cur_attr.get_foreground();
-                if cur_attr.is_bold() {
+                if cur_attr.is_bold() && fg < 8 {
                     fg += 8;
                 }
                 let fg_rgb = buf.palette.get_rgb(fg);
